@@ -74,9 +74,9 @@ def pyNat (s : Str) : Option Nat := pyNatAux 0 false s
     single underscores between digits; `none` = ValueError. -/
 def pyInt (s : Str) : Option Int :=
   match rstripSp (lstripSp s) with
-  | '-' :: r => (pyNat r).map (fun n => -(n : Int))
-  | '+' :: r => (pyNat r).map (fun n => (n : Int))
-  | r => (pyNat r).map (fun n => (n : Int))
+  | '-' :: r => (pyNat r).map (fun (n : Nat) => -(Int.ofNat n))
+  | '+' :: r => (pyNat r).map (fun (n : Nat) => Int.ofNat n)
+  | r => (pyNat r).map (fun (n : Nat) => Int.ofNat n)
 
 def pyIntE (s : Str) : CRes Int :=
   match pyInt s with
@@ -248,9 +248,9 @@ def parseDurBody : Str → Option Nat
 
 /-- `DURATION_REGEX.match(t)` + `timedelta(...)` + sign, in seconds; `none` = ValueError -/
 def durFrom : Str → Option Int
-  | '-' :: r => (parseDurBody r).map (fun v => -(v : Int))
-  | '+' :: r => (parseDurBody r).map (fun v => (v : Int))
-  | r => (parseDurBody r).map (fun v => (v : Int))
+  | '-' :: r => (parseDurBody r).map (fun (v : Nat) => -(Int.ofNat v))
+  | '+' :: r => (parseDurBody r).map (fun (v : Nat) => Int.ofNat v)
+  | r => (parseDurBody r).map (fun (v : Nat) => Int.ofNat v)
 
 def durFromE (t : Str) : CRes Int :=
   match durFrom t with
@@ -533,9 +533,9 @@ def rfcDurBody : Str → Option Nat
 
 /-- 3.3.6 `dur-value = (["+"] / "-") "P" (dur-date / dur-time / dur-week)`, value in seconds -/
 def rfcDuration : Str → Option Int
-  | '-' :: r => (rfcDurBody r).map (fun v => -(v : Int))
-  | '+' :: r => (rfcDurBody r).map (fun v => (v : Int))
-  | r => (rfcDurBody r).map (fun v => (v : Int))
+  | '-' :: r => (rfcDurBody r).map (fun (v : Nat) => -(Int.ofNat v))
+  | '+' :: r => (rfcDurBody r).map (fun (v : Nat) => Int.ofNat v)
+  | r => (rfcDurBody r).map (fun (v : Nat) => Int.ofNat v)
 
 /-- 3.3.14 `utc-offset = ("+" / "-") time-hour time-minute [time-second]`; `-0000` and `-000000`
     are not allowed, the second must not be 60. Value in seconds. -/
